@@ -346,6 +346,14 @@ func deviations(p int, thorough bool) []deviation {
 		d.SwKind = SwList
 		d.Sw = []CompDesc{{MV: bp(fill(32, 1)), SID: bp(fill(32, 2))}}
 	})
+	for _, fv := range []uint{0, 7, 1 << 40} {
+		fv := fv
+		add("noSw", "flag-value+list", func(d *ClaimsDesc) {
+			d.NoSw = uip(fv)
+			d.SwKind = SwList
+			d.Sw = []CompDesc{{MV: bp(fill(32, 1)), SID: bp(fill(32, 2))}, {MV: bp(fill(48, 3)), SID: bp(fill(64, 4))}}
+		})
+	}
 	return out
 }
 
